@@ -270,7 +270,7 @@ class ReorderPeer(object):
     """well-behaved but re-ordering: parks requests, answers them in a seed-chosen order at seed-chosen
     virtual instants; may itself call back into the client"""
 
-    def __init__(self, sim, sock, st, delays=(0.0, 0.0, 0.05, 0.1, 0.25), refs=True):
+    def __init__(self, sim, sock, st, delays=(0.0, 0.0, 0.05, 0.1, 0.25), refs=True, fail_calls=False):
         self.sim = sim
         self.st = st
         self.peer = RefPeer(sock, compress=False)
@@ -284,6 +284,9 @@ class ReorderPeer(object):
         self.refs = refs
         self.nref = 0
         self.inspected = []         # class names the real side asked us to describe
+        self.fail_calls = fail_calls
+        self.client_root = None     # identifier of the real side's root (for calls of its failing methods)
+        self.fail_sent = {}         # seq -> 'a' | 'b'
 
     def reader(self):
         p = self.peer
@@ -302,6 +305,8 @@ class ReorderPeer(object):
                         p.reply(seq, (RC.LABEL_VALUE, None))
                     else:
                         self.parked.append((seq, h, boxed))
+                elif seq == 690000 and kind == RC.MSG_REPLY:
+                    self.client_root = args[1]
                 else:
                     self.cb_replies[seq] = (kind, args)
         except PeerEOF:
@@ -330,6 +335,8 @@ class ReorderPeer(object):
     def responder(self, expected):
         st = self.st
         try:
+            if self.fail_calls:
+                self.peer.request(RC.H_GETROOT, (RC.LABEL_TUPLE, ()), seq=690000)
             while len(self.answered) < expected and not self.eof and not self.stop:
                 if not self.parked:
                     self.sim.block(lambda: bool(self.parked) or self.eof or self.stop, None, "peer-wait-request")
@@ -342,6 +349,14 @@ class ReorderPeer(object):
                 j = st.draw(len(self.parked))
                 seq, h, boxed = self.parked.pop(j)
                 self.answer(seq, h, boxed)
+                if self.fail_calls and self.client_root is not None and st.flip(250):
+                    # two requests that both fail, back to back: whichever threads dispatch them, each failure report must
+                    # describe its own request
+                    for which in ("a", "b") if st.draw(2) else ("b", "a"):
+                        s = 710000 + len(self.fail_sent)
+                        self.fail_sent[s] = which
+                        self.peer.request(RC.H_CALLATTR, (RC.LABEL_TUPLE, ((RC.LABEL_LOCAL_REF, self.client_root), (RC.LABEL_VALUE, "fail_" + which),
+                                                                          (RC.LABEL_VALUE, ()), (RC.LABEL_VALUE, ()))), seq=s)
                 if st.flip(150):
                     s = 700000 + len(self.cb_sent)
                     self.cb_sent.append(s)
